@@ -2,6 +2,7 @@ import RichModel.Lemmas.TextHistory
 import RichModel.Lemmas.TextJoin
 import RichModel.Lemmas.TextRender
 import RichModel.Lemmas.TextHistory2
+import RichModel.Lemmas.TextSplitOld
 import RichModel.Gen.CellWidths
 /-!
 # C05 — Text editing operations keep characters and styles attached
@@ -17,19 +18,9 @@ names applied to it, base style first, then the covering spans in span order (fr
 names: any re-ordering, loss or gain of a style is visible; interpret in rich's `Style` algebra
 afterwards).  No theorem bounds the length of the strings, the number of spans or of operations.
 
-`divide_view` (and `split_char_spec`, `expandTabs_ink'` used below) are proved in `Lemmas/WrapDivide.lean` /
-`Lemmas/WrapTabs.lean`, which the word-wrap property C02 built on this model and which are imported
-read-only; they are restated here because they are obligations of C05's statement.
-
-Still partial (full statements beside the `_partial` theorems):
-* `get_slice_view_partial`: bounds that normalise to `start ≤ stop` (for `stop < start` Python gives `""`;
-  the model's `divide([start, stop])[1]` is compared with rich on every run, not proved);
-* `split_view_partial`: single-character separator, `include_separator=True`, `allow_blank=False`, stated
-  as "the pieces concatenate to the text" (the pieces' boundaries and the other flag combinations are
-  compared with rich, not proved; multi-character separators with a proper border are outside the domain);
-* `expand_tabs_view_partial`: the invariant and the non-whitespace characters with their styles; the
-  column arithmetic of the inserted blanks is compared with rich and evaluated against `str.expandtabs`-like
-  reference semantics on every run, not proved.
+`divide_view` is proved in `Lemmas/WrapDivide.lean`, which the word-wrap property C02 built on this model and
+which is imported read-only (as are two of its helper lemmas about one-character separators); it is restated
+here because it is an obligation of C05's statement.  Nothing in this file is partial any more.
 -/
 namespace RichModel.C05
 open RichModel RichModel.Text
@@ -92,7 +83,7 @@ example : HistPre (0 : Nat) (Text.new Variant.repaired ['a', '\r', 'b'] 5)
   decide
 
 /-- every operation of the full set — the above plus `rstrip`, `truncate`, `align`, `join` (as separator
-and as element), `assemble`, `divide`, slices, single-character `split`, `expand_tabs` — keeps the invariant -/
+and as element), `assemble`, `divide`, slices, single-character `split`, `expand_tabs`, `remove_suffix`, `+` — keeps the invariant -/
 theorem inv_step_all [BEq σ] (cw : Char → Nat) (null : σ) (t t' : Text σ) (op : OpX σ) (h : Inv t) (hp : op.Pre t)
     (hs : stepX cw null t op = .ok t') : Inv t' :=
   inv_stepX cw null t t' op h hp hs
@@ -104,11 +95,7 @@ theorem inv_history_all [BEq σ] (cw : Char → Nat) (null : σ) (ops : List (Op
 
 example : HistPreX (fun _ => 1) (0 : Nat) (Text.new Variant.repaired ['a', 'b', 'c', 'd', ' '] 5 [⟨0, 3, 1⟩])
     [.rstrip, .truncate 3 (some .ellipsis) false, .align .center 7 '*', .slice (some (-4)) none] := by
-  refine ⟨trivial, fun _ _ => ⟨trivial, fun _ _ => ⟨(by show isStripCode '*' = false; decide), fun t3 h3 => ⟨?_, fun _ _ => trivial⟩⟩⟩⟩
-  rename_i t1 h1 t2 h2
-  cases h1; cases h2; cases h3
-  show (Py.sliceIndices _ _ _).1 ≤ (Py.sliceIndices _ _ _).2
-  decide
+  exact ⟨trivial, fun _ _ => ⟨trivial, fun _ _ => ⟨(by show isStripCode '*' = false; decide), fun _ _ => ⟨trivial, fun _ _ => trivial⟩⟩⟩⟩
 
 /-! ## what `render()` shows is the reference semantics -/
 
@@ -190,33 +177,103 @@ theorem divide_view [BEq σ] (t : Text σ) (offs : List Nat) (h : Inv t)
       (∀ l ∈ lines, Inv l ∧ l.style = t.style ∧ l.justify = t.justify ∧ l.overflow = t.overflow) :=
   Text.divide_view t offs h hs hb
 
-/-- FULL STATEMENT: for all `a b`, `t[a:b]` shows `(view t)[a:b]` (Python slice semantics).
-PROVED: whenever the normalised bounds are in order; MISSING: `stop < start` (result `""`). -/
-theorem get_slice_view_partial [BEq σ] (t : Text σ) (a b : Option Int) (h : Inv t)
-    (hse : (Py.sliceIndices t.plain.length a b).1 ≤ (Py.sliceIndices t.plain.length a b).2) :
+/-- **`text[a:b]` is the slice of the styled string**, for every pair of bounds — `None`, negative, beyond either
+end, and bounds that normalise to `stop < start` (empty result) — exactly as for `str`
+(`(s, e) = slice(a, b).indices(len)`, result `view[s:e]`). -/
+theorem get_slice_view [BEq σ] (t : Text σ) (a b : Option Int) (h : Inv t) :
     ∃ u, t.getSlice Variant.repaired a b = .ok u ∧ Inv u ∧ u.style = t.style ∧
       u.view = (t.view.drop (Py.sliceIndices t.plain.length a b).1).take
         ((Py.sliceIndices t.plain.length a b).2 - (Py.sliceIndices t.plain.length a b).1) :=
-  getSlice_view t a b h hse
+  getSlice_view_all t a b h
 
-/-- FULL STATEMENT: `t.split(sep, include_separator, allow_blank)` yields the pieces `str.split` yields, each
-with its styles.  PROVED: single-character separator kept in the pieces: consistent pieces under the same base
-style whose styled strings concatenate to the styled string of the text (nothing lost, moved or restyled). -/
-theorem split_view_partial [BEq σ] (d : Char) (t : Text σ) (h : Inv t) :
-    ∃ parts, t.split Variant.repaired [d] true = .ok parts ∧
-      parts.flatMap Text.view = t.view ∧ ∀ l ∈ parts, Inv l ∧ l.style = t.style :=
-  Wrap.split_char_spec d t h
+/-- `text[a:b:step]`: step 0 raises `ValueError` (from `slice.indices`), every step other than `None`/1 is refused
+with `TypeError` (documented: not supported), `None`/1 is the slice above -/
+theorem get_slice_step [BEq σ] (t : Text σ) (a b step : Option Int) :
+    t.getSliceStep Variant.repaired a b step =
+      (if step = some 0 then .error .valueError
+       else if step = none ∨ step = some 1 then t.getSlice Variant.repaired a b
+       else .error .typeError) :=
+  getSliceStep_spec t a b step
 
-/-- FULL STATEMENT: `expand_tabs(ts)` shows `expandtabs` of the styled string (tab → blanks up to the next
-multiple of `ts`, the first blank in the tab's style, the rest in the base style).  PROVED: it succeeds, keeps
-the invariant and the base style, is the identity without a tab, and every non-whitespace character survives,
-in order, with its effective style under one more application of the base style.  MISSING: the count and
-placement of the blanks. -/
-theorem expand_tabs_view_partial [BEq σ] (t : Text σ) (h : Inv t) (ts : Nat) (hts : 0 < ts) :
-    ∃ q, t.expandTabs Variant.repaired (some ts) = .ok q ∧ Inv q ∧ q.style = t.style ∧
+/-- the cut points of `split` are the leftmost non-overlapping occurrences of the separator: each match is an
+occurrence, starts at or after the end of the previous one, and the stretch skipped before it (and what follows
+the last one) is not the separator itself -/
+theorem split_cuts_at_occurrences (sep plain : List Char) (hsep : 0 < sep.length) :
+    GoodMs sep plain 0 (findAll sep plain) :=
+  findAll_good sep plain hsep
+
+/-- **`split` at piece level** (repaired code), for EVERY non-empty separator — also one that overlaps itself —,
+`include_separator` and `allow_blank` both ways: no occurrence → the text itself; otherwise the pieces ending after
+each occurrence, or the stretches between the occurrences (what `str.split` returns), every character with the
+effective style it had, in consistent texts under the same base style; a blank last piece is dropped unless
+`allow_blank`.  The same equation holds for the plain strings. -/
+theorem split_view [BEq σ] (t : Text σ) (sep : List Char) (incl blank : Bool) (h : Inv t) (hsep : sep ≠ []) :
+    ∃ parts, Text.splitW false Variant.repaired t sep incl blank = .ok parts ∧
+      parts.map view =
+        (if (findAll sep t.plain).isEmpty then [t.view]
+         else dropBlank blank (if incl then pieces ((findAll sep t.plain).map (·.2)) t.view
+                               else betweenFrom 0 (findAll sep t.plain) t.view)) ∧
+      parts.map (·.plain) =
+        (if (findAll sep t.plain).isEmpty then [t.plain]
+         else dropBlank blank (if incl then pieces ((findAll sep t.plain).map (·.2)) t.plain
+                               else betweenFrom 0 (findAll sep t.plain) t.plain)) ∧
+      ∀ l ∈ parts, Inv l ∧ l.style = t.style :=
+  split_view_all t sep incl blank h hsep
+
+/-- **Today's `split` (last line dropped when `text.endswith(separator)`) is the repaired `split`** for every
+separator that does not overlap itself — no proper non-empty suffix of it is a prefix: every single character,
+`"ab"`, `", "`, … —, so `split_view` describes rich as released for all of them. -/
+theorem split_released_eq_repaired [BEq σ] (t : Text σ) (sep : List Char) (incl blank : Bool) (h : Inv t)
+    (hub : Unbordered sep) :
+    Text.splitW true Variant.repaired t sep incl blank = Text.splitW false Variant.repaired t sep incl blank :=
+  splitW_released_eq t sep incl blank h hub
+
+example (c : Char) : Unbordered [c] := by
+  intro k h0 h1; simp at h1; omega
+
+example : Unbordered ['a', 'b'] := by
+  intro k h0 h1
+  have : k = 1 := by simp at h1; omega
+  subst this; decide
+
+/-- an empty separator is refused (`assert separator`) -/
+theorem split_empty_separator [BEq σ] (endsw : Bool) (v : Variant) (t : Text σ) (incl blank : Bool) :
+    Text.splitW endsw v t [] incl blank = .error .assertionError := rfl
+
+/-- released `split` drops the last line whenever the text ends with the separator: `Text("aaa").split("aa")`
+is `[""]` — the final `"a"` is lost (`"aaa".split("aa")` is `['', 'a']`) -/
+theorem old_split_overlapping_separator :
+    (Text.splitW true Variant.repaired (Text.new Variant.repaired ['a', 'a', 'a'] (0 : Nat)) ['a', 'a'] false false).map
+      (fun ps => ps.map (·.plain)) = .ok [[]] := by
+  rfl
+
+example :
+    (Text.splitW false Variant.repaired (Text.new Variant.repaired ['a', 'a', 'a'] (0 : Nat)) ['a', 'a'] false false).map
+      (fun ps => ps.map (·.plain)) = .ok [[], ['a']] := by
+  rfl
+
+/-- **`expand_tabs` at full strength.**  With effective tab size `ts ≥ 1` (the argument, else the text's own
+`tab_size`): without a tab the text is returned untouched; otherwise the call succeeds, the result is consistent,
+keeps the base style, and its styled string is `expRef ts base (view t) 0` — every tab becomes `ts - col % ts`
+blanks (1 … `ts`, up to the next multiple of `ts`, `col` counted from the last newline: multi-line texts
+included), the first blank in the tab's style and the others in the base style, every other character in order
+with its effective style (under one more application of the base style: the text is rebuilt with `append`). -/
+theorem expand_tabs_view [BEq σ] (t : Text σ) (h : Inv t) (tabSize : Option Nat) (ts : Nat) (hts : 0 < ts)
+    (heff : tabSize.orElse (fun _ => t.tabSize) = some ts) :
+    ∃ q, t.expandTabs Variant.repaired tabSize = .ok q ∧ Inv q ∧ q.style = t.style ∧
       (t.plain.contains '\t' = false → q = t) ∧
-      (t.plain.contains '\t' = true → Wrap.nsv q.view = (Wrap.nsv t.view).map (fun p => (p.1, t.style :: p.2))) :=
-  Wrap.expandTabs_ink' t h ts hts
+      (t.plain.contains '\t' = true → q.view = expRef ts t.style t.view 0) :=
+  expandTabs_view t h tabSize ts hts heff
+
+example : (Text.expandTabs Variant.repaired (Text.new Variant.repaired ['a', '\t', 'b', '\n', '\t', 'c'] (5 : Nat) [⟨1, 2, 1⟩])
+    (some 4)).map Text.view = .ok [('a', [5, 5]), (' ', [5, 5, 1]), (' ', [5, 5]), (' ', [5, 5]), ('b', [5, 5]), ('\n', [5, 5]),
+      (' ', [5, 5]), (' ', [5, 5]), (' ', [5, 5]), (' ', [5, 5]), ('c', [5, 5])] := by
+  rfl
+
+example : expRef 4 (5 : Nat) (Text.new Variant.repaired ['a', '\t', 'b', '\n', '\t', 'c'] (5 : Nat) [⟨1, 2, 1⟩]).view 0 =
+    [('a', [5, 5]), (' ', [5, 5, 1]), (' ', [5, 5]), (' ', [5, 5]), ('b', [5, 5]), ('\n', [5, 5]),
+      (' ', [5, 5]), (' ', [5, 5]), (' ', [5, 5]), (' ', [5, 5]), ('c', [5, 5])] := by
+  rfl
 
 /-- `rstrip()`: the text without its trailing whitespace, every remaining character as it was -/
 theorem rstrip_view (t : Text σ) (h : Inv t) :
